@@ -154,3 +154,165 @@ def bound_selfcheck():
     ok = bool(m) and (int(m.group(1)), int(m.group(2)), int(m.group(3))) == (KMAX, KNS, KHDR) and len(ex) >= 2 and len(ex3) >= 2
     return (ok and all(bound_N(int(i), int(n)) == int(v) for i, n, v in ex)
             and all(bound3_N(int(i), int(n)) == int(v) for i, n, v in ex3)), len(ex) + len(ex3)
+
+
+# ---------------------------------------------------------------------------------------------------------------
+# C03: the two EXTRACTED conversion models back to back (xml2wbxml_events, then wbxml2xml_model), against the C's own
+# xml -> wbxml -> xml, at both stages; then the second iteration (x -> w2) the same way
+# ---------------------------------------------------------------------------------------------------------------
+
+def roundtrip_sources(seed, quick):
+    """the sources of props/C03/check.py: the project's XML corpus and documents synthesised from every language's tables"""
+    import glob
+    from . import c06_gen
+    tj = gen.gen_tables()
+    srcs = []
+    files = sorted(glob.glob(os.path.join(common.REPO, "test", "tools", "**", "*.xml"), recursive=True))
+    for f in files:
+        srcs.append(("corpus:" + os.path.relpath(f, os.path.join(common.REPO, "test", "tools")), open(f, "rb").read()))
+    docs = c06_gen.documents(tj, common.Rng(seed, 3), quick, token_root=True)
+    if quick:
+        docs = [d for i, d in enumerate(docs) if d[1] != "tags" or i % 2 == seed % 2]
+    srcs += [("%s:%d" % (k, l), x) for l, k, x, _ in docs]
+    return srcs
+
+
+def _x2w_both(items):
+    """items = [(xml bytes, (version, keep_ws, use_strtbl, anonymous))] -> [(c answer "W …", model answer "W …")] ; Expat's events for
+    the model come from the logging parser of harness/c02c_harness.c (xmlfront_log.h); nested documents are answered by
+    harness/xmlfront_harness.c as in xmlfront.correspond_conv"""
+    from . import xmlfront as xf
+    H = common.build_harness("c02c_harness")
+    HT = common.build_harness("xmlfront_harness")
+    D = common.build_driver("C02c")
+    lines = ["%s %d %d %d %d" % ((d.hex() if d else "-",) + t) for d, t in items]
+    ans, crashes = common.run_lines(H, lines)
+    parsed = [xf.split_answer(a) for a in ans]
+    pending = [i for i, p in enumerate(parsed) if p is not None]
+    subs = {i: {} for i in pending}
+    results, tree_answer = {}, {}
+    for _ in range(xf.MAX_ROUNDS):
+        if not pending:
+            break
+        ml = []
+        for i in pending:
+            ev, st, _w = parsed[i]
+            sb = subs[i]
+            ml.append("%s %s %d %d %d %d %d%s %s" % ((lines[i].split(" ")[0], st) + items[i][1]
+                                                    + (len(sb), "".join(" %s %s" % (h, a) for h, a in sb.items()), ev)))
+        mo, _ = common.run_lines(D, ml)
+        need, nxt = {}, []
+        for i, o in zip(pending, mo):
+            if o is not None and o.startswith("NEED "):
+                need.setdefault(o[5:], []).append(i)
+                nxt.append(i)
+            else:
+                results[i] = o if o is not None else "bad driver-crash"
+        unknown = [h for h in need if h not in tree_answer]
+        if unknown:
+            a2, _ = common.run_lines(HT, unknown)
+            for h, a in zip(unknown, a2):
+                p = xf.split_answer(a)
+                tree_answer[h] = p[2] if p is not None else "T ERR 0"
+        for h, idxs in need.items():
+            for i in idxs:
+                subs[i][h] = xf.sub_answer(tree_answer[h])
+        pending = nxt
+    out = []
+    for i, p in enumerate(parsed):
+        out.append((None, None) if p is None else (p[2], results.get(i, "bad no-answer")))
+    return out, crashes
+
+
+def _w_of(ans):
+    return bytes.fromhex(ans[5:]) if ans and ans.startswith("W OK ") and not ans.startswith("W OK !") else None
+
+
+def _w2x_both(items):
+    """items = [(wbxml for the C, wbxml for the model, lang, keep)] -> [(c parsed answer, model parsed answer)] (compact XML)"""
+    ch = _c01_harness()
+    drv = _big_stack(common.build_driver("C01c"))
+    cl = [convcases.w2x_line(wc, "run", L, 0, 0, 0, k, dump=1) for wc, wm, L, k in items]
+    ml = [convcases.w2x_line(wm, "run", L, 0, 0, 0, k, dump=1) for wc, wm, L, k in items]
+    ca, ccr = common.run_lines(ch, cl)
+    ma, _ = common.run_lines(drv, ml)
+    return [(convcases.parse_answer(a), _parse_model(b)) for a, b in zip(ca, ma)], ccr
+
+
+def roundtrip(seed, quick=True, sources=None):
+    """XML -> WBXML -> XML (and the second iteration XML -> WBXML) through the two extracted conversion models, compared with the
+    C's own conversions at every stage: status (OK / ERR, error codes soft) and output bytes.
+    Returns dict(evaluations, disagreements, stages, second_iteration_xml_identical / _differs (the model's X2 against its X1: C03's
+    clause, judged by props/C03; reported here as an observation), second_wbxml_equals_first, crashes, samples)."""
+    rng = common.Rng(seed, 73)
+    srcs = sources if sources is not None else roundtrip_sources(seed, quick)
+    srcs = [(n, x) for n, x in srcs if len(x) <= (20000 if quick else 120000)]
+    opts = [(3, 1, 0), (3, 0, 0), (3, 1, 1), (3, 0, 1)] + [(v, st, kw) for v in (0, 1, 2) for st in (0, 1) for kw in (0, 1)]   # (version, strtbl, keep)
+    cases = []
+    for n, x in srcs:
+        for o in ([rng.choice(opts[:4]), rng.choice(opts)] if quick else opts[:4] + [rng.choice(opts[4:]) for _ in range(2)]):
+            cases.append((n, x, o))
+    force = lambda n: 1901 if n.startswith("corpus:ota/") else 0
+    dis, crashes, stages = [], [], collections.Counter()
+    evaluations = 0
+
+    def x2w_stage(tag, idx, docs):
+        nonlocal evaluations
+        r, cr = _x2w_both([(docs[i], (cases[i][2][0], cases[i][2][2], cases[i][2][1], 0)) for i in idx])
+        crashes.extend(cr)
+        good = {}
+        for i, (c, m) in zip(idx, r):
+            evaluations += 1
+            stages[tag] += 1
+            if c is None or m is None:
+                dis.append({"stage": tag, "source": cases[i][0], "options": cases[i][2], "why": "no answer", "c": c, "model": m})
+                continue
+            wc, wm = _w_of(c), _w_of(m)
+            if wc is None and wm is None and c.startswith("W ERR") and m.startswith("W ERR") and "!" not in c:
+                continue                                          # both refuse (codes soft)
+            if wc is None or wm is None or wc != wm:
+                dis.append({"stage": tag, "source": cases[i][0], "options": cases[i][2], "why": "WBXML differs" if wc and wm else "OK/ERR",
+                            "doc_hex": docs[i].hex()[:3000], "c": c[:600], "model": m[:600]})
+            if wc is not None and wm is not None:
+                good[i] = (wc, wm)
+        return good
+
+    def w2x_stage(tag, ws):
+        nonlocal evaluations
+        idx = list(ws)
+        r, cr = _w2x_both([(ws[i][0], ws[i][1], force(cases[i][0]), cases[i][2][2]) for i in idx])
+        crashes.extend(cr)
+        good = {}
+        for i, (pc, pm) in zip(idx, r):
+            evaluations += 1
+            stages[tag] += 1
+            if pc is None or pm is None:
+                dis.append({"stage": tag, "source": cases[i][0], "options": cases[i][2], "why": "no answer"})
+                continue
+            if (pc["st"] == 0) != (pm["st"] == 0):
+                dis.append({"stage": tag, "source": cases[i][0], "options": cases[i][2], "why": "OK/ERR", "c": pc["st"], "model": pm["st"],
+                            "wbxml": ws[i][0].hex()[:2000]})
+            elif pc["st"] == 0:
+                if pc.get("out") != pm.get("out") or pc["len"] != pm["len"]:
+                    dis.append({"stage": tag, "source": cases[i][0], "options": cases[i][2], "why": "XML differs", "wbxml": ws[i][0].hex()[:2000],
+                                "c": (pc.get("out") or "")[:600], "model": (pm.get("out") or "")[:600]})
+                if pc.get("out") not in (None, "-") and pm.get("out") not in (None, "-"):
+                    good[i] = (bytes.fromhex(pc["out"]), bytes.fromhex(pm["out"]))
+        return good
+
+    docs0 = {i: c[1] for i, c in enumerate(cases)}
+    W1 = x2w_stage("xml->wbxml", list(range(len(cases))), docs0)
+    X1 = w2x_stage("wbxml->xml", W1)
+    # second iteration: the model is fed ITS OWN XML (events logged by Expat for it), the C its own
+    same = {i: x for i, x in X1.items() if x[0] == x[1]}
+    W2 = x2w_stage("xml->wbxml (2nd)", list(same), {i: same[i][1] for i in same})
+    X2 = w2x_stage("wbxml->xml (2nd)", W2)
+    ident = sum(1 for i in X2 if X2[i][1] == X1[i][1])
+    differs = [{"source": cases[i][0], "options": cases[i][2]} for i in X2 if X2[i][1] != X1[i][1]]
+    w_same = sum(1 for i in W2 if W2[i][1] == W1[i][1])
+    k = list(X1)[:: max(1, len(X1) // 6)][:6]
+    return {"evaluations": evaluations, "disagreements": dis, "stages": dict(stages), "cases": len(cases), "sources": len(srcs),
+            "second_iteration_xml_identical": ident, "second_iteration_xml_differs": len(differs), "second_iteration_differs_samples": differs[:5],
+            "second_wbxml_equals_first": w_same, "second_wbxml_differs_from_first": len(W2) - w_same,
+            "crashes": crashes,
+            "samples": [{"source": cases[i][0], "options": cases[i][2], "wbxml": W1[i][1].hex()[:120], "xml": X1[i][1][:160].decode("latin-1")} for i in k]}
